@@ -120,6 +120,8 @@ def nospace(n):
 
 
 def index_names(fi):
+    """names bound to an argsort ('perm') / get_slice ('slice') result; an argsort written inline as a subscript index (a permutation
+    used once: the normal form inlines its name) is given the synthetic name `<argsort@k>`"""
     out = {}
     for name, vals in df.assignments(fi.node).items():
         for v, p, st in vals:
@@ -129,7 +131,29 @@ def index_names(fi):
                     out[name] = "perm"
                 elif f.endswith("get_slice"):
                     out[name] = "slice"
+    for k, c in enumerate(_inline_argsorts(fi)):
+        out[f"<argsort@{k}>"] = "perm"
     return out
+
+
+def _inline_argsorts(fi):
+    out = []
+    for n in df.body_nodes(fi.node):
+        if isinstance(n, ast.Subscript):
+            idxs = list(n.slice.elts) if isinstance(n.slice, ast.Tuple) else [n.slice]
+            for e in idxs:
+                if isinstance(e, ast.Call) and ast.unparse(e.func).endswith("argsort") and not any(e is x for x in out):
+                    out.append(e)
+    return out
+
+
+def perm_source_calls(fi, name):
+    """the argsort call(s) a permutation name stands for"""
+    if name.startswith("<argsort@"):
+        k = int(name[len("<argsort@"):-1])
+        calls = _inline_argsorts(fi)
+        return [calls[k]] if k < len(calls) else []
+    return [v_ for v_, p_, st_ in df.assignments(fi.node).get(name, []) if isinstance(v_, ast.Call) and v_.args]
 
 
 def uses_of(fi, name):
@@ -138,7 +162,8 @@ def uses_of(fi, name):
     for n in df.body_nodes(fi.node):
         if isinstance(n, ast.Subscript):
             idxs = list(n.slice.elts) if isinstance(n.slice, ast.Tuple) else [n.slice]
-            pos = [i for i, e in enumerate(idxs) if isinstance(e, ast.Name) and e.id == name]
+            inline = perm_source_calls(fi, name) if name.startswith("<argsort@") else []
+            pos = [i for i, e in enumerate(idxs) if (isinstance(e, ast.Name) and e.id == name) or any(e is c_ for c_ in inline)]
             if not pos:
                 continue
             if len(idxs) == 1:
@@ -290,7 +315,7 @@ def run(idx, rep, tier):
             construct = f"{getattr(fi, 'rule', None).role if getattr(fi, 'rule', None) else fi.short}:{name}"
             # the argsort of values that are already ascending (the output of eigh) is the identity: whatever it is applied to, or not
             # applied to, nothing moves
-            src_calls = [v_ for v_, p_, st_ in df.assignments(fi.node).get(name, []) if isinstance(v_, ast.Call) and v_.args]
+            src_calls = perm_source_calls(fi, name)
             arg_orders = {a_[1] for c_ in src_calls for a_ in od.spec_alts(od.eval_in(fi, c_.args[0]))}
             if src_calls and arg_orders == {ASC_ALG} and all(df.is_xnp_call(c_) == "argsort" and not any(k_.arg == "descending" for k_ in c_.keywords) for c_ in src_calls):
                 rep.proved("paired-permutation", construct, f"`{name}` sorts values that are already in ascending order: the identity permutation", locs=[idx.loc(fi.module, fi.node)])
